@@ -31,8 +31,10 @@ MANIFEST = {
 
 MAXNS = (1, 2, 1000)
 # alphabet-size variants (first alphabet, second alphabet); sizes decide the code dtype
+# a third component "F" makes the score matrix Fortran-ordered (what SubstitutionMatrix.transpose()
+# and matrices built from arr.T are): memory layout is a realisation detail, not an input
 REPS = [("u8", "u8"), ("u16", "u8"), ("u8", "u16"), ("u16", "u16"), ("u32", "u8"), ("u8", "u32"),
-        ("u8p", "u8p")]
+        ("u8p", "u8p"), ("u8", "u8", "F"), ("u16", "u8p", "F")]
 SIZES = {"u8": None, "u8p": 11, "u16": 300, "u32": 70000}
 FILL = 77           # score of symbol pairs that never occur: a wrong table lookup becomes visible
 
@@ -70,7 +72,11 @@ def build(inp, rep):
     for a in range(k1):
         for b in range(k2):
             mat[_embed(a, z1, k1), _embed(b, z2, k2)] = M[a][b]
+    if len(rep) > 2 and rep[2] == "F":
+        mat = np.asfortranarray(mat)
     sm = align.SubstitutionMatrix(a1, a2, mat)
+    if len(rep) > 2 and rep[2] == "F" and not sm.score_matrix().flags["F_CONTIGUOUS"]:
+        sm = align.SubstitutionMatrix(a2, a1, mat.T.copy()).transpose()
     s1 = seq.GeneralSequence(a1)
     s1.code = np.array([_embed(c, z1, k1) for c in inp["s1"]], dtype=np.int64)
     s2 = seq.GeneralSequence(a2)
